@@ -170,7 +170,9 @@ class _RunnerIterator(iter_utils.MultiplexIterator[_ValueT]):
         ignore_error=self._ignore_error,
         with_result=self._with_result,
         with_agg_state=self._with_agg,
-        state=state.agg_state,
+        # The checkpoint can be restored more than once, in-place updates of the
+        # recovered iterator must not reach the checkpointed state.
+        state=copy.deepcopy(state.agg_state),
     )
 
   def from_upstream(
@@ -183,7 +185,7 @@ class _RunnerIterator(iter_utils.MultiplexIterator[_ValueT]):
         ignore_error=self._ignore_error,
         with_result=self._with_result,
         with_agg_state=self._with_agg,
-        state=state.agg_state,
+        state=copy.deepcopy(state.agg_state),
     )
 
   @property
